@@ -1,7 +1,28 @@
 // streams conv.events / conv.seq — C02, C03, C09: the real MDSDRV_Converter on IR songs
 #include "h_song.h"
 #include "platform/mdsdrv.h"
+#include <algorithm>
 #include "riff.h"
+
+// hook (guarded by CTRMML_VERIF in mdsdrv.h): read access to MDSDRV_Data's maps
+class MDSDRV_Data_Test
+{
+	public:
+		static std::string ins(MDSDRV_Data& d)
+		{
+			std::string out;
+			char buf[64];
+			bool first = true;
+			for(auto& kv : d.ins_type)
+			{
+				int idx = d.envelope_map.count(kv.first) ? d.envelope_map.at(kv.first) : -1;
+				snprintf(buf, sizeof buf, "%s%d:%d:%d", first ? "" : ",", kv.first, (int)kv.second, idx);
+				out += buf;
+				first = false;
+			}
+			return out;
+		}
+};
 
 // friend name declared in mdsdrv.h: read access to the converter's private tables
 class MDSDRV_Converter_Test
@@ -46,15 +67,7 @@ class MDSDRV_Converter_Test
 				out += buf;
 			}
 			if(u.empty()) out += "-";
-			out += " ins=";
-			first = true;
-			for(auto& kv : c.data.ins_type)
-			{
-				int idx = c.data.envelope_map.count(kv.first) ? c.data.envelope_map.at(kv.first) : -1;
-				snprintf(buf, sizeof buf, "%s%d:%d:%d", first ? "" : ",", kv.first, (int)kv.second, idx);
-				out += buf;
-				first = false;
-			}
+			out += " ins=" + MDSDRV_Data_Test::ins(c.data);
 			return out;
 		}
 };
